@@ -2,6 +2,7 @@
 from __future__ import annotations
 
 import common as C
+import re_probes as RP
 import fault_probes as FP
 import engine_common as E
 import engine_extract
@@ -83,6 +84,7 @@ def run(ctx, model=True):
             res.violations.append(C.Violation("async-pause-hook:" + sig, "implementation-only probe (async pause hook): " + what, sc))
     res.notes.append(f"{len(probes)} implementation-only probes with an async Pausable.pause() hook (a suspension point of _run that the Lean model does not have)")
     FP.run_probes(ctx, res, PROBE_JUDGES, ["close", "teardown-request", "leftover-stage", "pause-hook"], 20, 400)
+    RP.add_to(res, ["raising-state-hook"])
     return res
 
 
@@ -91,6 +93,9 @@ def run_impl_only(ctx):
 
 
 def replay(ctx, data):
+    r = RP.replay(data)
+    if r is not None:
+        return r
     if FP.is_probe(data):
         return FP.replay_probe(ctx, data, PROBE_JUDGES)
     return E.replay_property(ctx, data, oracle)
